@@ -10,69 +10,7 @@ import z3
 
 from pyvc.values import *  # noqa: F401,F403
 from pyvc.engine import Unsupported
-
-NATIVE = {}
-
-
-def native(fn):
-    NATIVE[fn.__name__] = fn
-    return fn
-
-
-# ----------------------------------------------------------------------------- native readings
-@native
-def implies(a, b):
-    return (not a) or bool(b)
-
-
-@native
-def is_pow2(x):
-    return isinstance(x, int) and x > 0 and (x & (x - 1)) == 0
-
-
-@native
-def pow2(e):
-    return 2 ** e
-
-
-@native
-def ascii_decimal(s):
-    return isinstance(s, str) and len(s) > 0 and all(c in "0123456789" for c in s)
-
-
-@native
-def int_parsable(s):
-    try:
-        int(s)
-        return True
-    except ValueError:
-        return False
-
-
-@native
-def int_value(s):
-    return int(s)
-
-
-@native
-def auto_piece_length(size):
-    """C12 automatic choice: smallest 2^e, 14 <= e <= 24, with size <= 1000 * 2^e (2^24 if there is none)."""
-    for e in range(14, 25):
-        if size <= 1000 * 2 ** e:
-            return 2 ** e
-    return 2 ** 24
-
-
-@native
-def valid_piece_length_arg(x):
-    """C12: an integer argument that must be accepted: exponent 14..25, or a power of two >= 16 KiB."""
-    return (14 <= x <= 25) or (x >= 16384 and is_pow2(x))
-
-
-@native
-def free_piece_length_arg(x):
-    """C12: exponents 26..29 may be rejected or read as 2^n."""
-    return 26 <= x <= 29
+from .specs_native import NATIVE  # noqa: F401
 
 
 # ----------------------------------------------------------------------------- symbolic readings
